@@ -22,10 +22,33 @@ RULE = ("case = layout (1..8 entries: any integer type / REAL32 / REAL64 with it
         "bit-field model (read = field of F, write changes exactly the field's bits, length = ceil(total/8)). Entries may be "
         "record members mapped by numeric sub-index, and may declare LowLimit/HighLimit (advisory) with values "
         "written on both sides of them; the same objects may have been mapped with other lengths before clear(). "
+        "'Every frame content': inside one history the same map object gets further contents - map.data = bytearray, "
+        "map.data[:] = .. and map.data[i] = b in place, or a frame delivered from the bus (Network.notify -> "
+        "on_message of the subscribed map) - interleaved with reads and writes (every enumerated type/offset case "
+        "ends with such a replacement; Hypothesis mixes them in). 'Every PDO mapping' (family kind=multi): one "
+        "RemoteNode or LocalNode with up to 4 objects (variables, records with members of different types, arrays "
+        "with declared and derived elements, CiA 301 dummy entries 0x0001..0x0007; access type any of "
+        "rw/ro/wo/rwr/rww/const) and 1..3 of the maps RPDO1/RPDO2/TPDO1/TPDO2, each with its own entry list (objects "
+        "shared between maps, in other orders and lengths; the same object several times in one map; several members "
+        "of one record/array incl. sub 0), built by add_variable (one map after the other or interleaved) or "
+        "read(from_od=True), variables taken as returned / by position / by iteration; each map has its own frame "
+        "(model: one integer per map); ops = write / read one variable / replace frame / change a byte on any map, "
+        "after each op every map's buffer is compared with the model (a write to one map leaves the others alone) "
+        "and, as drawn, none / that map's / all variables are read; all variables are read at the end. Directed "
+        "enumerations of that family per clause + Hypothesis. "
         "Non-trivial = layout has a field with offset % 8 != 0 or length % 8 != 0; distinct = canonical JSON.")
 ASSUMPTIONS = [
     "only values inside the field's range are written (the quantifier says 'all 2^len field values')",
     "NaN payloads are read (compared as NaN) but not written",
+    "a frame content always has the frame length ceil(total/8) of its mapping and is a mutable buffer (bytearray) "
+    "when the harness assigns it; a frame from the bus is handed to Network.notify as bytearray (its documented type)",
+    "what a map's buffer holds before the application or the bus filled it is not examined (only its length)",
+    "the statement does not condition on the access type of the mapped object (it describes access over the bus, "
+    "e.g. a TPDO producer writes 'ro' objects into its frame), so writes are checked for objects of every access type",
+    "a mapping may name the same object more than once (CiA 301 allows it, dummy entries are the usual case); every "
+    "entry is a mapped variable with its own bit field",
+    "in the multi-map family variables are addressed as returned by add_variable, by position or by iteration only "
+    "(look-up by name/index is ambiguous there); offset/length attributes are not asserted in that family",
 ]
 BUDGET = {"quick": 150, "thorough": 400}
 
@@ -148,7 +171,45 @@ def same(dt, a, b):
     return a == b and not isinstance(a, bool)
 
 
+def frame_op_text(op):
+    if "poke" in op:
+        return f"map.data[{op['poke'][0]}] = 0x{op['poke'][1]:02x} (in place)"
+    return {"assign": "map.data = bytearray(..)", "slice": "map.data[:] = .. (in place)",
+            "rx": "frame received (Network.notify)"}[op.get("how", "assign")] + f" {bytes(op['frame']).hex()}"
+
+
+def put_frame(net, pmap, cob, op, F, nbytes, ts):
+    """Give the map another frame content; returns the model's frame integer.
+    {"frame": bytes, "how": "assign"}  map.data = bytearray(frame)
+    {"frame": bytes, "how": "slice"}   map.data[:] = frame           (same buffer object, changed in place)
+    {"frame": bytes, "how": "rx"}      the frame arrives from the bus: Network.notify(cob_id, bytearray, ts) ->
+                                       PdoMap.on_message (the map is subscribed the documented way first)
+    {"poke": [i, b]}                   map.data[i] = b               (one byte changed in place)
+    The content always has the frame length ceil(total/8) of the mapping."""
+    if "poke" in op:
+        i, b = op["poke"][0] % nbytes, op["poke"][1] & 0xFF
+        pmap.data[i] = b
+        return (F & ~(0xFF << (8 * i))) | (b << (8 * i))
+    frame = bytes(op["frame"])[:nbytes].ljust(nbytes, b"\0")
+    how = op.get("how", "assign")
+    if how == "assign":
+        pmap.data = bytearray(frame)
+    elif how == "slice":
+        pmap.data[:] = frame
+    elif how == "rx":
+        if not pmap.enabled or pmap.cob_id != cob:
+            pmap.cob_id = cob
+            pmap.enabled = True
+        pmap.subscribe()
+        net.notify(cob, bytearray(frame), ts)
+    else:
+        raise ValueError(f"generator error: how={how}")
+    return int.from_bytes(frame, "little")
+
+
 def run_case(case) -> Outcome:
+    if case.get("kind") == "multi":
+        return run_multi(case)
     layout = case["layout"]
     D = []
 
@@ -197,6 +258,7 @@ def run_case(case) -> Outcome:
     frame = bytes(case["frame"])[:nbytes].ljust(nbytes, b"\0")
     pmap.data = bytearray(frame)
     F = int.from_bytes(frame, "little")
+    net = node.network
 
     def read_all(tag):
         for k, (v, o) in enumerate(zip(vars_, offs)):
@@ -217,6 +279,20 @@ def run_case(case) -> Outcome:
     if not read_all("initial"):
         return Outcome(nontrivial, klass, D)
     for n, op in enumerate(case["ops"]):
+        if "frame" in op or "poke" in op:
+            # the frame content is replaced / changed on the same map object, in the middle of the history
+            try:
+                F = put_frame(net, pmap, 0x203, op, F, nbytes, float(n + 1))
+            except Exception as ex:
+                bad("frame-set-raises", f"op {n} {op}: {type(ex).__name__}: {ex}")
+                break
+            if len(pmap.data) != nbytes or int.from_bytes(bytes(pmap.data), "little") != F:
+                bad("frame-set", f"op {n} {op}: map.data is {bytes(pmap.data).hex()} want "
+                                 f"{F.to_bytes(nbytes, 'little').hex()}")
+                break
+            if not read_all(f"after op {n} {frame_op_text(op)}"):
+                break
+            continue
         k = op["var"] % len(layout)
         e, o, v = layout[k], offs[k], vars_[k]
         val = op["v"]
@@ -243,6 +319,314 @@ def run_case(case) -> Outcome:
         F = want_F
         if not read_all(f"after {tag}"):
             break
+    return Outcome(nontrivial, klass, D)
+
+
+# ---- several maps on one node, objects shared / repeated / members of one record or array ----------------
+ACCESS = ("rw", "ro", "wo", "rwr", "rww", "const")
+#            communication, mapping parameter, COB-ID of node 3 (pre-defined connection set)
+MAPS = {"rpdo1": (0x1400, 0x1600, 0x203), "rpdo2": (0x1401, 0x1601, 0x303),
+        "tpdo1": (0x1800, 0x1A00, 0x183), "tpdo2": (0x1801, 0x1A01, 0x283)}
+DUMMY_TYPES = (rc.BOOLEAN, rc.INTEGER8, rc.INTEGER16, rc.INTEGER32, rc.UNSIGNED8, rc.UNSIGNED16, rc.UNSIGNED32)
+
+
+def obj_index(objs, k):
+    return objs[k]["dt"] if objs[k]["kind"] == "dummy" else 0x2000 + k
+
+
+def ent_dt(objs, ent):
+    """Data type of the object a mapping entry [object number, sub-index, bit length] refers to."""
+    o, sub = objs[ent[0]], ent[1]
+    if o["kind"] in ("var", "dummy"):
+        if sub:
+            raise ValueError("generator error: sub-index of a simple variable")
+        return o["dt"]
+    if sub == 0:
+        return rc.UNSIGNED8                      # "number of entries"
+    if o["kind"] == "array":
+        return o["dt"]
+    for s, dt, _acc in o["mem"]:
+        if s == sub:
+            return dt
+    raise ValueError("generator error: record member not declared")
+
+
+def ent_acc(objs, k, sub):
+    o = objs[k]
+    if o["kind"] == "dummy":
+        return "const"
+    if o["kind"] == "var":
+        return o.get("acc", "rw")
+    if sub == 0:
+        return "ro"
+    if o["kind"] == "array":
+        return o.get("acc", "rw")
+    return [a for s_, _dt, a in o["mem"] if s_ == sub][0]
+
+
+def make_multi(case):
+    """One node (RemoteNode or LocalNode) whose dictionary holds the objects `objs`:
+      {"kind": "var", "dt", "acc"}                  0x2000+k
+      {"kind": "record", "mem": [[sub, dt, acc]..]}  0x2000+k, members of different types (sub 0 = UNSIGNED8)
+      {"kind": "array", "dt", "acc", "decl": n}     0x2000+k, sub 1..n declared, every other sub-index 1..254 is
+                                                    an element too (the dictionary derives it from the first one)
+      {"kind": "dummy", "dt"}                       index = data type (CiA 301 dummy entry 0x0001..0x0007), const
+    and several PDO maps ("rpdo1", "rpdo2", "tpdo1", "tpdo2"), each with its own list of entries
+    [object number, sub-index, bit length] - objects may be shared between maps and repeated inside one -
+    built with add_variable() or taken from the dictionary with read(from_od=True)."""
+    import canopen
+    objs, maps = case["objs"], case["maps"]
+    spec = []
+    for m in maps:
+        com_i, map_i, cob = MAPS[m["which"]]
+        from_od = m.get("via", "add") == "from_od"
+        ents = m["ent"]
+        spec.append({"kind": "record", "index": com_i, "name": f"{m['which']} comm", "members": [
+            {"sub": 0, "name": "n", "dt": rc.UNSIGNED8},
+            {"sub": 1, "name": "cob", "dt": rc.UNSIGNED32, "default": cob if from_od else None},
+            {"sub": 2, "name": "type", "dt": rc.UNSIGNED8, "default": 255 if from_od else None}]})
+        spec.append({"kind": "array", "index": map_i, "name": f"{m['which']} map", "members": [
+            {"sub": 0, "name": "n", "dt": rc.UNSIGNED8, "default": len(ents) if from_od else None}] + [
+            {"sub": j + 1, "name": f"e{j + 1}", "dt": rc.UNSIGNED32,
+             "default": (obj_index(objs, e[0]) << 16) | (e[1] << 8) | e[2]} for j, e in enumerate(ents)]})
+    for k, o in enumerate(objs):
+        idx = obj_index(objs, k)
+        if o["kind"] == "var":
+            spec.append({"kind": "var", "index": idx, "name": f"o{k}", "dt": o["dt"], "access": o.get("acc", "rw"),
+                         "pdo": True})
+        elif o["kind"] == "dummy":
+            spec.append({"kind": "var", "index": idx, "name": f"Dummy{idx:04d}", "dt": o["dt"], "access": "const"})
+        elif o["kind"] == "record":
+            spec.append({"kind": "record", "index": idx, "name": f"o{k}", "members": [
+                {"sub": 0, "name": "n", "dt": rc.UNSIGNED8, "access": "ro"}] + [
+                {"sub": s_, "name": f"m{s_}", "dt": dt, "access": acc, "pdo": True} for s_, dt, acc in o["mem"]]})
+        else:
+            spec.append({"kind": "array", "index": idx, "name": f"o{k}", "members": [
+                {"sub": 0, "name": "n", "dt": rc.UNSIGNED8, "access": "ro"}] + [
+                {"sub": s_, "name": f"e{s_}", "dt": o["dt"], "access": o.get("acc", "rw"), "pdo": True}
+                for s_ in range(1, o.get("decl", 1) + 1)]})
+    od = build_od(spec)
+    node = canopen.LocalNode(3, od) if case.get("node") == "local" else canopen.RemoteNode(3, od)
+    net = canopen.Network()
+    net.add_node(node)
+    pmaps = []
+    for m in maps:
+        w = m["which"]
+        pmaps.append((node.rpdo if w.startswith("r") else node.tpdo)[int(w[-1])])
+    vars_ = [[] for _ in maps]
+
+    def add(mi, e):
+        dt = ent_dt(objs, e)
+        full = rc.width(dt)
+        vars_[mi].append(pmaps[mi].add_variable(obj_index(objs, e[0]), e[1], None if e[2] == full else e[2]))
+
+    adders = [mi for mi, m in enumerate(maps) if m.get("via", "add") != "from_od"]
+    if case.get("interleave"):
+        # the application builds its maps side by side: one entry of each in turn
+        for j in range(max([len(maps[mi]["ent"]) for mi in adders] or [0])):
+            for mi in adders:
+                if j < len(maps[mi]["ent"]):
+                    add(mi, maps[mi]["ent"][j])
+    for mi, m in enumerate(maps):
+        if m.get("via", "add") == "from_od":
+            pmaps[mi].read(from_od=True)
+        elif not case.get("interleave"):
+            for e in m["ent"]:
+                add(mi, e)
+    for mi, m in enumerate(maps):
+        lookup = m.get("lookup", "direct")
+        if m.get("via", "add") == "from_od" and lookup == "direct":
+            lookup = "iter"
+        if lookup == "iter":
+            vars_[mi] = list(pmaps[mi])
+        elif lookup == "pos":
+            vars_[mi] = [pmaps[mi][j] for j in range(len(pmaps[mi].map))]
+    return node, net, pmaps, vars_
+
+
+def multi_features(case):
+    objs, maps = case["objs"], case["maps"]
+    feats = [f"{len(maps)}map"]
+    used = [[(e[0], e[1]) for e in m["ent"]] for m in maps]
+    if any(set(a) & set(b) for i, a in enumerate(used) for b in used[i + 1:]):
+        feats.append("shared")
+    if any(len(set(u)) < len(u) for u in used):
+        feats.append("repeat")
+    if any(len({s for (o, s) in u if o == k}) > 1 for u in used for k in {o for o, _ in u}):
+        feats.append("members")
+    if {ent_acc(objs, o, s) for u in used for o, s in u} - {"rw"}:
+        feats.append("non-rw")
+    if any(m.get("how") == "rx" for m in maps) or any(op.get("how") == "rx" for op in case["ops"]):
+        feats.append("rx")
+    return feats
+
+
+def run_multi(case) -> Outcome:
+    objs, maps = case["objs"], case["maps"]
+    D = []
+
+    def bad(kind, detail):
+        D.append(Discrepancy(f"C05/{kind}", detail))
+
+    lay = []                 # per map: list of (dt, length, offset)
+    nontrivial = False
+    for m in maps:
+        off, fields = 0, []
+        if not 1 <= len(m["ent"]) <= 8:
+            raise ValueError("generator error: a map has 1..8 entries")
+        for e in m["ent"]:
+            dt = ent_dt(objs, e)
+            if e[2] != rc.width(dt) and not ((dt in SUB8 and 1 <= e[2] <= 8) or (dt == rc.BOOLEAN and e[2] == 1)):
+                raise ValueError("generator error: length outside the property's domain")
+            fields.append((dt, e[2], off))
+            if off % 8 or e[2] % 8:
+                nontrivial = True
+            off += e[2]
+        if off > 64:
+            raise ValueError("generator error: layout of more than 64 bits is outside the property's domain")
+        lay.append(fields)
+    klass = "multi/" + "+".join(multi_features(case))
+    desc = [f"{m['which']}[" + " | ".join(f"{obj_index(objs, e[0]):04X}:{e[1]:02X} {rc.NAMES[f[0]]}:{f[1]}@{f[2]}"
+                                          for e, f in zip(m["ent"], fl)) + "]" for m, fl in zip(maps, lay)]
+    try:
+        node, net, pmaps, vars_ = make_multi(case)
+    except Exception as e:
+        bad("add_variable-raises", f"{desc}: {type(e).__name__}: {e}")
+        return Outcome(nontrivial, klass, D)
+    nb = [(sum(f[1] for f in fl) + 7) // 8 for fl in lay]
+    for mi, m in enumerate(maps):
+        if len(vars_[mi]) != len(m["ent"]) or any(v is None for v in vars_[mi]) or \
+                len(pmaps[mi].map) != len(m["ent"]):
+            bad("map-size", f"{desc}: map {mi} has {len(pmaps[mi].map)} variables, "
+                            f"{sum(v is not None for v in vars_[mi])} handed out")
+            return Outcome(nontrivial, klass, D)
+        if len(pmaps[mi].data) != nb[mi]:
+            bad("frame-length", f"{desc}: len(data) of map {mi} = {len(pmaps[mi].data)} want {nb[mi]}")
+            return Outcome(nontrivial, klass, D)
+    F = [0] * len(maps)
+
+    def frames_ok(tag):
+        """None: every map holds the model's frame; -1: a length is wrong (reported); else the number of a map
+        whose content differs."""
+        for mi in range(len(maps)):
+            got = bytes(pmaps[mi].data)
+            if len(got) != nb[mi]:
+                bad("write-changed-length" if tag.startswith("write") else "frame-set",
+                    f"{desc}: {tag}: frame of map {mi} has {len(got)} bytes, want {nb[mi]}")
+                return -1
+            if int.from_bytes(got, "little") != F[mi]:
+                return mi
+        return None
+
+    def read_vars(tag, which):
+        for mi in which:
+            for k, (dt, ln, o) in enumerate(lay[mi]):
+                want = field_value(dt, ln, F[mi], o)
+                try:
+                    got = vars_[mi][k].raw
+                except Exception as ex:
+                    bad("read-raises", f"{desc}: {tag}: map {mi} variable {k}: {type(ex).__name__}: {ex}")
+                    return False
+                if not same(dt, got, want):
+                    bad("read-value", f"{desc}: {tag}: map {mi} variable {k} ({rc.NAMES[dt]} len {ln} at bit {o}) "
+                                      f"frame {bytes(pmaps[mi].data).hex()}: read {got!r} want {want!r}")
+                    return False
+        return True
+
+    def after(tag, mi, rd):
+        return read_vars(f"after {tag}", [] if rd == 0 else [mi] if rd == 1 else range(len(maps)))
+
+    ts = 0.0
+    # every map gets its own initial frame content
+    for mi, m in enumerate(maps):
+        ts += 1.0
+        op = {"frame": m["frame"], "how": m.get("how", "assign")}
+        tag = f"map {mi}: {frame_op_text(op)}"
+        try:
+            F[mi] = put_frame(net, pmaps[mi], MAPS[m["which"]][2], op, F[mi], nb[mi], ts)
+        except Exception as ex:
+            bad("frame-set-raises", f"{desc}: {tag}: {type(ex).__name__}: {ex}")
+            return Outcome(nontrivial, klass, D)
+        # (the other maps' buffers are not looked at before they got their content: what a buffer holds
+        #  before the application or the bus filled it is not part of the property)
+        got = bytes(pmaps[mi].data)
+        if len(got) != nb[mi] or int.from_bytes(got, "little") != F[mi]:
+            bad("frame-set", f"{desc}: {tag}: map.data is {got.hex()}")
+            return Outcome(nontrivial, klass, D)
+    ok = frames_ok("initial frames")
+    if ok is not None:
+        if ok >= 0:
+            bad("frame-set/other-map", f"{desc}: after every map got its content, map {ok} holds "
+                                       f"{bytes(pmaps[ok].data).hex()} want {F[ok].to_bytes(nb[ok], 'little').hex()}")
+        return Outcome(nontrivial, klass, D)
+    if case.get("rd0", 2) and not read_vars("initial", range(len(maps))):
+        return Outcome(nontrivial, klass, D)
+    for n, op in enumerate(case["ops"]):
+        mi = op["map"] % len(maps)
+        ts += 1.0
+        if op["op"] in ("set", "poke"):
+            fop = {"poke": op["poke"]} if op["op"] == "poke" else {"frame": op["frame"], "how": op.get("how", "assign")}
+            tag = f"op {n} map {mi}: {frame_op_text(fop)}"
+            try:
+                F[mi] = put_frame(net, pmaps[mi], MAPS[maps[mi]["which"]][2], fop, F[mi], nb[mi], ts)
+            except Exception as ex:
+                bad("frame-set-raises", f"{desc}: {tag}: {type(ex).__name__}: {ex}")
+                break
+            ok = frames_ok(tag)
+            if ok is not None:
+                if ok >= 0:
+                    bad("frame-set" if ok == mi else "frame-set/other-map",
+                        f"{desc}: {tag}: frame of map {ok} is {bytes(pmaps[ok].data).hex()} want "
+                        f"{F[ok].to_bytes(nb[ok], 'little').hex()}")
+                break
+            if not after(tag, mi, op.get("rd", 2)):
+                break
+        elif op["op"] == "r":
+            k = op["var"] % len(lay[mi])
+            dt, ln, o = lay[mi][k]
+            want = field_value(dt, ln, F[mi], o)
+            try:
+                got = vars_[mi][k].raw
+            except Exception as ex:
+                bad("read-raises", f"{desc}: op {n}: map {mi} variable {k}: {type(ex).__name__}: {ex}")
+                break
+            if not same(dt, got, want):
+                bad("read-value", f"{desc}: op {n}: map {mi} variable {k} ({rc.NAMES[dt]} len {ln} at bit {o}) "
+                                  f"frame {bytes(pmaps[mi].data).hex()}: read {got!r} want {want!r}")
+                break
+            if frames_ok(f"op {n} read") is not None:
+                if not D:
+                    bad("read-changed-frame", f"{desc}: op {n}: reading map {mi} variable {k} changed a frame")
+                break
+        else:
+            k = op["var"] % len(lay[mi])
+            dt, ln, o = lay[mi][k]
+            mask = (1 << ln) - 1
+            tag = (f"write op {n}: map {mi} variable {k} ({rc.NAMES[dt]} len {ln} at bit {o}) = {op['v']!r} "
+                   f"on frame {bytes(pmaps[mi].data).hex()}")
+            F[mi] = (F[mi] & ~(mask << o)) | (enc_bits(dt, ln, op["v"]) << o)
+            try:
+                vars_[mi][k].raw = op["v"]
+            except Exception as ex:
+                bad("write-raises", f"{desc}: {tag}: {type(ex).__name__}: {ex}")
+                break
+            ok = frames_ok(tag)
+            if ok is not None:
+                if ok >= 0 and ok != mi:
+                    bad("write-bits/other-map", f"{desc}: {tag}: frame of map {ok} became "
+                                                f"{bytes(pmaps[ok].data).hex()} want "
+                                                f"{F[ok].to_bytes(nb[ok], 'little').hex()}")
+                elif ok >= 0:
+                    diff = int.from_bytes(bytes(pmaps[mi].data), "little") ^ F[mi]
+                    where = "field" if diff & (mask << o) and not diff & ~(mask << o) else \
+                        "neighbour" if not diff & (mask << o) else "field+neighbour"
+                    bad(f"write-bits/{where}", f"{desc}: {tag}: frame became {bytes(pmaps[mi].data).hex()} want "
+                                               f"{F[mi].to_bytes(nb[mi], 'little').hex()}")
+                break
+            if not after(tag, mi, op.get("rd", 2)):
+                break
+    if not D:
+        read_vars("end of history", range(len(maps)))
     return Outcome(nontrivial, klass, D)
 
 
@@ -317,7 +701,27 @@ def enum_cases():
                     if len(layout) > k + 1:
                         nb = layout[k + 1]
                         ops.insert(1, {"var": k + 1, "v": values_for(nb["dt"], nb["len"])[0]})
+                    # "every frame content": the same map object then gets another content (by assignment, in
+                    # place, or from the bus), is read and written again, and one byte is changed in place
+                    ops += [{"frame": frames[(fi + 1) % 3], "how": ("assign", "slice", "rx")[(off + ln + fi) % 3]},
+                            {"var": k, "v": vals[len(vals) // 2]},
+                            {"poke": [off // 8, (0x5A, 0xA5, 0xFF)[fi]]}]
                     yield {"layout": layout, "frame": fr, "ops": ops}
+
+
+def value_st(dt, ln):
+    """Values inside the field's range."""
+    if dt == rc.BOOLEAN:
+        return st.booleans()
+    if dt in rc.SIGNED:
+        lo, hi = -(1 << (ln - 1)), (1 << (ln - 1)) - 1
+        return st.one_of(st.sampled_from([lo, -1, 0, hi]), st.integers(lo, hi))
+    if dt in rc.UNSIGNED:
+        hi = (1 << ln) - 1
+        return st.one_of(st.sampled_from([0, hi]), st.integers(0, hi))
+    if dt == rc.REAL32:
+        return st.floats(width=32, allow_nan=False)
+    return st.floats(allow_nan=False)
 
 
 @st.composite
@@ -354,22 +758,17 @@ def layout_case(draw):
     frame = draw(st.one_of(st.just(bytes(8)), st.just(b"\xff" * 8), st.binary(min_size=8, max_size=8)))
     ops = []
     for _ in range(draw(st.integers(1, 10))):
+        if draw(st.integers(0, 5)) == 0:
+            # another frame content on the same map object, in the middle of the history
+            if draw(st.integers(0, 2)) == 0:
+                ops.append({"poke": [draw(st.integers(0, 7)), draw(st.integers(0, 255))]})
+            else:
+                ops.append({"frame": draw(st.binary(min_size=8, max_size=8)),
+                            "how": draw(st.sampled_from(["assign", "slice", "rx"]))})
+            continue
         k = draw(st.integers(0, len(layout) - 1))
         e = layout[k]
-        dt, ln = e["dt"], e["len"]
-        if dt == rc.BOOLEAN:
-            v = draw(st.booleans())
-        elif dt in rc.SIGNED:
-            lo, hi = -(1 << (ln - 1)), (1 << (ln - 1)) - 1
-            v = draw(st.one_of(st.sampled_from([lo, -1, 0, hi]), st.integers(lo, hi)))
-        elif dt in rc.UNSIGNED:
-            hi = (1 << ln) - 1
-            v = draw(st.one_of(st.sampled_from([0, hi]), st.integers(0, hi)))
-        elif dt == rc.REAL32:
-            v = draw(st.floats(width=32, allow_nan=False))
-        else:
-            v = draw(st.floats(allow_nan=False))
-        ops.append({"var": k, "v": v})
+        ops.append({"var": k, "v": draw(value_st(e["dt"], e["len"]))})
     case = {"layout": layout, "frame": frame, "ops": ops,
             "via": draw(st.sampled_from(["add", "add", "from_od"])),
             "lookup": draw(st.sampled_from(["direct", "direct", "node_name", "node_index", "map_name", "map_pos"]))}
@@ -452,9 +851,203 @@ def config_path_cases():
                    "ops": [{"var": 0, "v": 9}, {"var": 1, "v": -2}, {"var": 2, "v": 200}, {"var": 3, "v": True}]}
 
 
+# ---- several maps / shared, repeated objects / members of one record or array / frame replaced -----------
+SMALL = [rc.UNSIGNED8, rc.INTEGER8, rc.BOOLEAN, rc.UNSIGNED16, rc.INTEGER16, rc.UNSIGNED8, rc.INTEGER8, rc.BOOLEAN]
+
+
+@st.composite
+def multi_case(draw):
+    types = st.sampled_from(SMALL + FULL)
+    access = st.sampled_from(("rw", "rw") + ACCESS)
+    objs = []
+    for _ in range(draw(st.integers(1, 4))):
+        kind = draw(st.sampled_from(["var", "var", "record", "record", "array", "dummy"]))
+        if kind == "dummy":
+            dt = draw(st.sampled_from(DUMMY_TYPES))
+            if any(o["kind"] == "dummy" and o["dt"] == dt for o in objs):
+                kind = "var"
+                objs.append({"kind": "var", "dt": dt, "acc": draw(access)})
+            else:
+                objs.append({"kind": "dummy", "dt": dt})
+        elif kind == "var":
+            objs.append({"kind": "var", "dt": draw(types), "acc": draw(access)})
+        elif kind == "record":
+            subs = draw(st.lists(st.sampled_from([1, 2, 3, 4, 7, 254]), min_size=1, max_size=4, unique=True))
+            objs.append({"kind": "record", "mem": [[s_, draw(types), draw(access)] for s_ in sorted(subs)]})
+        else:
+            objs.append({"kind": "array", "dt": draw(types), "acc": draw(access), "decl": draw(st.integers(1, 3))})
+    whichs = draw(st.permutations(sorted(MAPS)))[:draw(st.sampled_from([1, 2, 2, 2, 3]))]
+    maps = []
+    for w in whichs:
+        ents, remaining = [], 64
+        for _ in range(draw(st.integers(1, 8))):
+            k = draw(st.integers(0, len(objs) - 1))
+            o = objs[k]
+            if o["kind"] == "record":
+                sub = draw(st.sampled_from([m[0] for m in o["mem"]] * 3 + [0]))
+            elif o["kind"] == "array":
+                sub = draw(st.sampled_from([1, 1, 2, 3, 4, 5, 200, 254, 0]))
+            else:
+                sub = 0
+            dt = ent_dt(objs, [k, sub, 0])
+            if dt == rc.BOOLEAN:
+                ln = draw(st.sampled_from([1, 1, 8]))
+            elif dt in SUB8:
+                ln = draw(st.sampled_from([8, 8, 1, 2, 3, 4, 5, 6, 7]))
+            else:
+                ln = rc.width(dt)
+            if ln > remaining:
+                continue
+            ents.append([k, sub, ln])
+            remaining -= ln
+        if not ents:
+            # nothing fitted (cannot happen with the first draw, kept for shrinking): one bit of anything small
+            objs.append({"kind": "var", "dt": rc.UNSIGNED8, "acc": "rw"})
+            ents.append([len(objs) - 1, 0, 8])
+        maps.append({"which": w, "via": draw(st.sampled_from(["add", "add", "from_od"])), "ent": ents,
+                     "lookup": draw(st.sampled_from(["direct", "direct", "pos", "iter"])),
+                     "frame": draw(st.one_of(st.just(bytes(8)), st.just(b"\xff" * 8), st.binary(min_size=8, max_size=8))),
+                     "how": draw(st.sampled_from(["assign", "assign", "slice", "rx"]))})
+    ops = []
+    for _ in range(draw(st.integers(1, 12))):
+        mi = draw(st.integers(0, len(maps) - 1))
+        kind = draw(st.sampled_from(["w", "w", "w", "set", "poke", "r"]))
+        rd = draw(st.sampled_from([0, 1, 2, 2]))
+        if kind == "set":
+            ops.append({"op": "set", "map": mi, "frame": draw(st.binary(min_size=8, max_size=8)),
+                        "how": draw(st.sampled_from(["assign", "slice", "rx"])), "rd": rd})
+        elif kind == "poke":
+            ops.append({"op": "poke", "map": mi, "poke": [draw(st.integers(0, 7)), draw(st.integers(0, 255))], "rd": rd})
+        else:
+            k = draw(st.integers(0, len(maps[mi]["ent"]) - 1))
+            if kind == "r":
+                ops.append({"op": "r", "map": mi, "var": k})
+            else:
+                e = maps[mi]["ent"][k]
+                ops.append({"op": "w", "map": mi, "var": k, "v": draw(value_st(ent_dt(objs, e), e[2])), "rd": rd})
+    return {"kind": "multi", "node": draw(st.sampled_from(["remote", "remote", "local"])), "objs": objs, "maps": maps,
+            "interleave": draw(st.booleans()), "rd0": draw(st.sampled_from([0, 2, 2])), "ops": ops}
+
+
+def multi_enum_cases(thorough=False):
+    """Directed cases of the multi-map family, each derived from a clause of the statement:
+    'every frame content' (the content of one map object changes several times, by every route),
+    'every PDO mapping' (members of one record / array, the same object twice, objects of any access type,
+    several maps of one node that share objects)."""
+    U8, I8, U16, I16, I32, B = rc.UNSIGNED8, rc.INTEGER8, rc.UNSIGNED16, rc.INTEGER16, rc.INTEGER32, rc.BOOLEAN
+    f1, f2, f3 = bytes([0x21, 0x43, 0x65, 0x87, 0xA9, 0xCB, 0xED, 0x0F]), \
+        bytes([0x9C, 0x3A, 0x5F, 0xE1, 0x70, 0x06, 0xB8, 0xD4]), b"\xff" * 8
+    nodes = ("remote", "local")
+    # 1. frame content replaced on the same map object: every route, before and after reads and writes
+    objs = [{"kind": "var", "dt": U8, "acc": "rw"}, {"kind": "var", "dt": I16, "acc": "rw"},
+            {"kind": "var", "dt": B, "acc": "rw"}, {"kind": "var", "dt": rc.REAL32, "acc": "rw"}]
+    layouts = ([[0, 0, 4], [1, 0, 16], [2, 0, 1]], [[0, 0, 8], [1, 0, 16]], [[2, 0, 1], [3, 0, 32], [0, 0, 3]])
+    hows = ("assign", "slice", "rx", "poke")
+    for li, ents in enumerate(layouts):
+        for h0 in ("assign", "slice", "rx"):
+            for h1 in hows:
+                for h2 in hows:
+                    if not thorough and (li + hows.index(h1) + hows.index(h2)) % 2:
+                        continue
+                    for rd in (2, 0):
+                        def fop(h, fr, at):
+                            return {"op": "poke", "map": 0, "poke": [at, fr[at]], "rd": rd} if h == "poke" else \
+                                {"op": "set", "map": 0, "frame": fr, "how": h, "rd": rd}
+                        yield {"kind": "multi", "node": nodes[(li + rd) % 2], "objs": objs, "rd0": 2,
+                               "maps": [{"which": ("rpdo1", "tpdo1")[li % 2], "via": ("add", "from_od")[rd // 2],
+                                         "ent": ents, "frame": f1, "how": h0}],
+                               "ops": [fop(h1, f2, 0), {"op": "w", "map": 0, "var": 0, "v": 1 if li < 2 else True, "rd": rd},
+                                       fop(h2, f3, 1), {"op": "r", "map": 0, "var": 1},
+                                       {"op": "w", "map": 0, "var": 1, "v": -2 if li < 2 else 1.5, "rd": 2},
+                                       fop(h1, f1, 0)]}
+    # 2. members of one record / elements of one array (declared or derived), of different types and lengths
+    robjs = [{"kind": "record", "mem": [[1, U8, "rw"], [2, I16, "rw"], [3, B, "ro"], [4, I32, "rw"], [254, I8, "wo"]]},
+             {"kind": "array", "dt": I16, "acc": "rw", "decl": 2},
+             {"kind": "array", "dt": U8, "acc": "ro", "decl": 1}]
+    rlays = ([[0, 1, 8], [0, 2, 16]], [[0, 2, 16], [0, 1, 8]], [[0, 1, 3], [0, 3, 1], [0, 254, 5], [0, 4, 32], [0, 0, 8]],
+             [[0, 0, 8], [0, 2, 16], [0, 1, 4]], [[1, 0, 8], [1, 1, 16], [1, 2, 16]], [[1, 2, 16], [1, 0, 5], [1, 7, 16]],
+             [[2, 1, 3], [2, 9, 8], [2, 0, 8], [2, 200, 1]], [[2, 0, 2], [1, 3, 16], [0, 2, 16], [0, 3, 1], [2, 1, 8]])
+    for li, ents in enumerate(rlays):
+        for via in ("add", "from_od"):
+            for lookup in ("direct", "pos"):
+                ops = []
+                for k, e in enumerate(ents):
+                    vals = values_for(ent_dt(robjs, e), e[2])
+                    ops += [{"op": "w", "map": 0, "var": k, "v": vals[0], "rd": 2},
+                            {"op": "w", "map": 0, "var": k, "v": vals[-1], "rd": 1}]
+                yield {"kind": "multi", "node": nodes[li % 2], "objs": robjs, "rd0": 2,
+                       "maps": [{"which": "rpdo1", "via": via, "lookup": lookup, "ent": ents, "frame": (f1, f2)[li % 2],
+                                 "how": "assign"}], "ops": ops}
+    # 3. the same object more than once in a layout (dummy entries are the usual case), with equal or other lengths
+    dobjs = [{"kind": "dummy", "dt": U8}, {"kind": "dummy", "dt": I16}, {"kind": "var", "dt": I8, "acc": "rw"},
+             {"kind": "var", "dt": U16, "acc": "rw"}, {"kind": "dummy", "dt": B}]
+    dlays = ([[2, 0, 8], [3, 0, 16], [2, 0, 8]], [[0, 0, 8], [2, 0, 4], [0, 0, 8], [3, 0, 16], [0, 0, 8]],
+             [[2, 0, 3], [2, 0, 5], [2, 0, 8], [2, 0, 1]], [[1, 0, 16], [4, 0, 1], [1, 0, 16], [4, 0, 1], [3, 0, 16]],
+             [[3, 0, 16], [3, 0, 16], [3, 0, 16], [3, 0, 16]], [[0, 0, 1], [0, 0, 7], [3, 0, 16], [0, 0, 2]])
+    for li, ents in enumerate(dlays):
+        for via in ("add", "from_od"):
+            for lookup in ("direct", "pos", "iter"):
+                ops = []
+                for k, e in enumerate(ents):
+                    vals = values_for(ent_dt(dobjs, e), e[2])
+                    ops.append({"op": "w", "map": 0, "var": k, "v": vals[-1] if k % 2 else vals[0], "rd": 2})
+                yield {"kind": "multi", "node": nodes[li % 2], "objs": dobjs, "rd0": (2, 0)[li % 2],
+                       "maps": [{"which": ("rpdo1", "tpdo2")[li % 2], "via": via, "lookup": lookup, "ent": ents,
+                                 "frame": (f2, f1)[li % 2], "how": ("assign", "rx")[li % 2]}], "ops": ops}
+    # 4. objects of every access type, in receive and transmit maps of a remote and of a local node
+    for node in nodes:
+        for which in ("rpdo1", "tpdo1"):
+            for ai, acc in enumerate(ACCESS):
+                aobjs = [{"kind": "var", "dt": U16, "acc": acc}, {"kind": "var", "dt": U8, "acc": ACCESS[(ai + 1) % 6]},
+                         {"kind": "record", "mem": [[1, I8, acc], [2, B, ACCESS[(ai + 2) % 6]]]},
+                         {"kind": "array", "dt": I16, "acc": acc, "decl": 1}]
+                ents = [[1, 0, 4], [0, 0, 16], [2, 1, 8], [2, 2, 1], [3, 2, 16], [1, 0, 3]]
+                yield {"kind": "multi", "node": node, "objs": aobjs, "rd0": 2,
+                       "maps": [{"which": which, "via": ("add", "from_od")[ai % 2], "ent": ents, "frame": f2,
+                                 "how": "assign"}],
+                       "ops": [{"op": "w", "map": 0, "var": 1, "v": 0x1234, "rd": 2},
+                               {"op": "w", "map": 0, "var": 0, "v": 9, "rd": 2},
+                               {"op": "w", "map": 0, "var": 2, "v": -128, "rd": 2},
+                               {"op": "w", "map": 0, "var": 3, "v": ai % 2 == 0, "rd": 2},
+                               {"op": "w", "map": 0, "var": 4, "v": -2, "rd": 2},
+                               {"op": "w", "map": 0, "var": 5, "v": 5, "rd": 2}]}
+    # 5. several maps of one node that share objects (other order, other lengths), each with its own frame
+    sobjs = [{"kind": "var", "dt": U8, "acc": "rw"}, {"kind": "var", "dt": U16, "acc": "rw"},
+             {"kind": "record", "mem": [[1, I8, "rw"], [2, I32, "rw"]]}, {"kind": "var", "dt": B, "acc": "rw"}]
+    A = [[0, 0, 4], [1, 0, 16], [2, 1, 8], [3, 0, 1]]
+    Bm = [[1, 0, 16], [3, 0, 8], [0, 0, 8], [2, 1, 3]]
+    C = [[2, 2, 32], [0, 0, 8], [2, 1, 8], [1, 0, 16]]
+    combos = ((("rpdo1", A), ("rpdo2", Bm)), (("rpdo2", Bm), ("rpdo1", A)), (("tpdo1", A), ("tpdo2", C)),
+              (("rpdo1", A), ("tpdo1", Bm)), (("rpdo1", A), ("rpdo2", Bm), ("tpdo1", C)),
+              (("tpdo2", C), ("rpdo2", A), ("rpdo1", A)))
+    for ci, combo in enumerate(combos):
+        for vias in (("add",) * 3, ("from_od",) * 3, ("add", "from_od", "add")):
+            for interleave in (False, True):
+                if interleave and "from_od" in vias[:len(combo)]:
+                    continue
+                for node in nodes:
+                    maps = [{"which": w, "via": vias[i], "ent": ents, "frame": (f1, f2, f3)[i],
+                             "how": ("assign", "slice", "rx")[(i + ci) % 3]} for i, (w, ents) in enumerate(combo)]
+                    ops = []
+                    for mi, (w, ents) in enumerate(combo):
+                        for k, e in enumerate(ents):
+                            vals = values_for(ent_dt(sobjs, e), e[2])
+                            ops.append({"op": "w", "map": mi, "var": k, "v": vals[(mi + k) % len(vals)], "rd": 2})
+                        ops.append({"op": "set", "map": (mi + 1) % len(combo), "frame": (f3, f1, f2)[mi],
+                                    "how": ("rx", "assign", "slice")[mi], "rd": 2})
+                    yield {"kind": "multi", "node": node, "objs": sobjs, "rd0": (2, 0)[ci % 2], "interleave": interleave,
+                           "maps": maps, "ops": ops}
+
+
 def search(ctx):
     thorough = ctx.tier == "thorough"
     ctx.enumerate(enum_cases(), "every data type at every bit offset 0..63; all 2^len values of fields <= 8 bits")
     ctx.enumerate(remap_cases(), "maps re-mapped after clear() from a longer / shorter mapping")
     ctx.enumerate(config_path_cases(), "mapping taken from the dictionary; same objects re-mapped after lookups")
-    ctx.hypothesis(layout_case(), 40000 if thorough else 4000)
+    ctx.enumerate(multi_enum_cases(thorough), "several maps of one node sharing objects; members of one record/array; "
+                  "repeated objects; every access type; frame content replaced by every route")
+    ctx.hypothesis(layout_case(), 20000 if thorough else 4000)
+    ctx.hypothesis(multi_case(), 15000 if thorough else 1500, salt=1)
+    if thorough:
+        # second half after the multi-map family, so that a run cut short by the budget has seen both
+        ctx.hypothesis(layout_case(), 20000, salt=2)
